@@ -53,6 +53,12 @@ structure FieldInfo where
   squash : Bool := false   -- `squash` or `remain`
 deriving DecidableEq, Repr
 
+/-- struct-level hooks of the encoder chain other than `TextMarshaler` -/
+inductive SHook
+  | marshaler   -- the type implements `confmap.Marshaler`: `marshalerHookFunc` calls its `Marshal` and takes `conf.ToStringMap()`
+  | yaml        -- the struct has `yaml` tags and no `mapstructure` tags: `YamlMarshalerHookFunc` round-trips it through yaml
+deriving DecidableEq, Repr
+
 inductive GV
   | opq (i : Nat)                       -- configopaque.String holding secret number i
   | str (s : String)                    -- plain string
@@ -68,6 +74,9 @@ inductive GV
   | struct (fs : List (FieldInfo × GV))
   | tm (out : String) (viaValue : Bool) (fs : List (FieldInfo × GV))
       -- a struct whose type has `MarshalText` returning `out`: on values (`viaValue`) or only on pointers
+  | sh (hook : SHook) (fs : List (FieldInfo × GV))
+      -- a struct taken by one of the other struct-level hooks; `marshaler`: its `Marshal` marshals the map {name ↦ field};
+      -- `yaml`: fields are leaves (opaque / number / string), keys are the yaml tags
 deriving Repr
 
 def GV.isOpq : GV → Option Nat
@@ -76,7 +85,7 @@ def GV.isOpq : GV → Option Nat
 
 /-- Array, Slice, Struct, Map: what `printValue` dereferences through a top-level pointer -/
 def GV.isContainer : GV → Bool
-  | .slice _ | .nilSlice | .array _ | .map _ | .nilMap | .struct _ | .tm _ _ _ => true
+  | .slice _ | .nilSlice | .array _ | .map _ | .nilMap | .struct _ | .tm _ _ _ | .sh _ _ => true
   | _ => false
 
 /-- kinds for which `fmtPointer` prints an address -/
@@ -142,6 +151,7 @@ def rawLeaves (ρ : Nat → String) (top : Bool) : GV → List Leaf
   | .nilMap => []
   | .struct fs => rawLeavesF ρ fs
   | .tm _ _ fs => rawLeavesF ρ fs
+  | .sh _ fs => rawLeavesF ρ fs
 def rawLeavesL (ρ : Nat → String) : List GV → List Leaf
   | [] => []
   | v :: vs => rawLeaves ρ false v ++ rawLeavesL ρ vs
@@ -184,6 +194,7 @@ def pv (td : TD) (c : FmtCtx) (ρ : Nat → String) (top ci : Bool) : GV → Lis
   | .nilMap => []
   | .struct fs => if !top && ci && c.verb == 'w' then rawLeavesF ρ fs else pvF td c ρ ci fs
   | .tm _ _ fs => if !top && ci && c.verb == 'w' then rawLeavesF ρ fs else pvF td c ρ ci fs   -- MarshalText is not a fmt interface
+  | .sh _ fs => if !top && ci && c.verb == 'w' then rawLeavesF ρ fs else pvF td c ρ ci fs
 def pvL (td : TD) (c : FmtCtx) (ρ : Nat → String) (ci : Bool) : List GV → List Leaf
   | [] => []
   | v :: vs => pv td c ρ false ci v ++ pvL td c ρ ci vs
@@ -235,9 +246,13 @@ def GV.plainIn : GV → Bool
   | .iface v => v.plainIn
   | .slice vs => GV.plainInL vs
   | .array vs => GV.plainInL vs
-  | .map kvs => GV.plainInKV kvs
+  | .map kvs =>
+    -- fmt prints map entries sorted by the RAW value of a string-kind key (internal/fmtsort): with several
+    -- opaque keys the order of the entries depends on the secrets; such maps are outside "plain"
+    (kvs.length ≤ 1 || kvs.all (fun p => match p.1 with | .str _ | .num _ => true | _ => false)) && GV.plainInKV kvs
   | .struct fs => GV.plainInF fs
   | .tm _ _ fs => GV.plainInF fs
+  | .sh _ fs => GV.plainInF fs
 def GV.plainInL : List GV → Bool
   | [] => true
   | v :: vs => v.plainIn && GV.plainInL vs
@@ -264,6 +279,7 @@ def GV.hasUnexported : GV → Bool
   | .map kvs => GV.hasUnexportedKV kvs
   | .struct fs => GV.hasUnexportedF fs
   | .tm _ _ fs => GV.hasUnexportedF fs
+  | .sh _ fs => GV.hasUnexportedF fs
   | _ => false
 def GV.hasUnexportedL : List GV → Bool
   | [] => false
@@ -349,6 +365,7 @@ def isZero (ρ : Nat → String) : GV → Bool
   | .nilMap => true
   | .struct fs => isZeroF ρ fs
   | .tm _ _ fs => isZeroF ρ fs
+  | .sh _ fs => isZeroF ρ fs
 def isZeroL (ρ : Nat → String) : List GV → Bool
   | [] => true
   | v :: vs => isZero ρ v && isZeroL ρ vs
@@ -370,6 +387,17 @@ def keyString : Any → Option String
   | .str s => some s
   | .rawTyped s => some s              -- a string-kind value the hooks left alone: its raw content becomes the key
   | _ => none
+
+/-- `YamlMarshalerHookFunc`: `yaml.Marshal` of the struct (yaml.v3 consults `MarshalYAML`, then `MarshalText`, for a
+string-kind field) followed by `yaml.Unmarshal` into `map[string]any` -/
+def yamlF (td : TD) (ρ : Nat → String) : List (FieldInfo × GV) → List (String × Any)
+  | [] => []
+  | (fi, v) :: fs =>
+    (fi.name, match v with
+      | .opq i => Any.str (pathText td "yaml" .value (ρ i))
+      | .num n => Any.num n
+      | .str s => Any.str s
+      | _ => Any.nil) :: yamlF td ρ fs
 
 mutual
 /-- `Encoder.encode` -/
@@ -394,6 +422,11 @@ def enc (td : TD) (ρ : Nat → String) : GV → Except EncErr Any
     -- encodeStruct → encodeHook: TextMarshalerHookFunc asks `from.Interface().(encoding.TextMarshaler)` of the struct
     -- *value*: a pointer-receiver MarshalText is not found and the struct is encoded field by field
     if viaValue then .ok (.str out) else do let m ← encF td ρ fs []; pure (.map m)
+  | .sh .marshaler fs =>
+    -- marshalerHookFunc: `Marshal` marshals map[string]any{name: field} with the same encoder, `ToStringMap()` hands the
+    -- plain map back, and encodeStruct re-encodes it (identity on plain values)
+    do let m ← encF td ρ fs []; pure (.map m)
+  | .sh .yaml fs => .ok (.map (yamlF td ρ fs))
 def encL (td : TD) (ρ : Nat → String) : List GV → Except EncErr (List Any)
   | [] => .ok []
   | v :: vs => do let x ← enc td ρ v; let xs ← encL td ρ vs; pure (x :: xs)
@@ -462,6 +495,7 @@ def GV.kindName : GV → String
   | .map _ | .nilMap => "map"
   | .struct _ => "struct"
   | .tm _ _ _ => "struct"
+  | .sh _ _ => "struct"
 
 def insertSorted (p : String × String) : List (String × String) → List (String × String)
   | [] => [p]
